@@ -2,4 +2,5 @@ import Driver.Tok
 import Driver.LuCheck
 import Driver.PivotEng
 import Driver.FactorEng
+import Driver.SchedEng
 import Driver.Main
